@@ -401,7 +401,8 @@ def execute(case, keep_log=False):
                 _, cv = run_query(conn, stmts.for_execute(
                     'SELECT convert(sum(position), "USD") AS a, sum(convert(position, "USD")) AS b, '
                     'convert(sum(position), "EUR") AS c, sum(convert(position, "EUR")) AS d, '
-                    'value(sum(position)) AS e, sum(value(position)) AS f', False))
+                    'value(sum(position)) AS e, sum(value(position)) AS f, '
+                    'convert(sum(position), "CAD") AS g, sum(convert(position, "CAD")) AS h', False))
             except core.HarnessError:
                 raise
             except Exception as e:
@@ -420,7 +421,7 @@ def execute(case, keep_log=False):
                     violation('rider-cost-homomorphism', 'riders', {'cost(sum)': canon(c_), 'sum(cost)': canon(d)})
                 # convert()/value(): equal up to decimal rounding (28 digits) - tolerant comparison
                 for name, x, y in (('convert-USD', cv[0][0], cv[0][1]), ('convert-EUR', cv[0][2], cv[0][3]),
-                                   ('value', cv[0][4], cv[0][5])):
+                                   ('value', cv[0][4], cv[0][5]), ('convert-CAD', cv[0][6], cv[0][7])):
                     if not close_inventories(x, y):
                         violation('rider-' + name + '-homomorphism', 'riders', {'f(sum)': canon(x), 'sum(f)': canon(y)})
                 log.add('riders', core.digest([canon(tot[0][0]), canon(a), canon(c_)])[:12])
